@@ -1,2 +1,3 @@
 import Mqtt5V.Basic
 import Mqtt5V.Props.C20
+import Mqtt5V.Model.Trace
